@@ -26,8 +26,11 @@ RULE = ('random report trees of depth <= 5 levels (a sixth level must be '
         'plain names, the reserved names index / conf / conf.py / figures / '
         '.static / .templates, repeated titles among siblings and between '
         'parent and child, and unusable titles (empty, ., .., a/b, NUL); 0-3 '
-        'uniquely named results per section; Table representer at '
-        'FULL_DETAILS (thorough: also the Full representer with plots); '
+        'uniquely named results per section, given to the constructor or '
+        'appended to sections created empty; Table representer at '
+        'FULL_DETAILS (every 40th case, thorough every 8th: the Full '
+        'representer with plots, figures written sequentially or by 1-8 '
+        'worker subprocesses); '
         'distinct = distinct (tree shape, reserved/unusable title positions)')
 DECIDING = ['reports_written', 'pages_parsed', 'sections_checked',
             'results_checked', 'toctree_entries_resolved',
@@ -111,14 +114,25 @@ def fix_titles(node, parent_title=None):
         fix_titles(sub, node['title'])
 
 
-def build_report(node):
+def build_report(node, how='ctor'):
+    '''`how`: 'ctor' passes the content to the constructor; 'append' creates
+    every section without content and fills it afterwards.'''
     from valjean.javert.test_report import TestReport
+    if how == 'append':
+        section = TestReport(title=node['title'],
+                             text=f'Marker SEC{node["uid"]}.')
+        subs = [build_report(sub, how) for sub in node['subs']]
+        for uid, fail in node['results']:
+            section.content.append(make_result(uid, fail))
+        for sub in subs:
+            section.content.append(sub)
+        return section
     content = []
     # results and sub-sections interleaved deterministically
     for uid, fail in node['results']:
         content.append(make_result(uid, fail))
     for sub in node['subs']:
-        content.append(build_report(sub))
+        content.append(build_report(sub, how))
     return TestReport(title=node['title'], text=f'Marker SEC{node["uid"]}.',
                       content=content)
 
@@ -288,6 +302,12 @@ def run_case(seed, idx, tier, rec):
     # the same Rst object formats another report before this one is written
     sequence = idx % 4 == 0
     rep = FullRepresenter() if with_plots else TableRepresenter()
+    how = rng.choice(['ctor', 'append'])
+    rec.count('trees_built_by_' + how)
+    # figures written by worker subprocesses (more or fewer than figures)
+    n_workers = rng.choice([None, 1, 2, 4, 8]) if with_plots else None
+    if n_workers:
+        rec.count('reports_with_figures_written_by_subprocesses')
     rec.count('evaluations')
     work = tempfile.mkdtemp(prefix='vf-c20-', dir=core.fast_tmp())
     target = os.path.join(work, 'report')
@@ -299,15 +319,16 @@ def run_case(seed, idx, tier, rec):
         before = listing(work)
         raised = None
         try:
-            report = build_report(tree)
-            rst = Rst(Representation(rep, Verbosity.FULL_DETAILS))
+            report = build_report(tree, how)
+            rst = Rst(Representation(rep, Verbosity.FULL_DETAILS),
+                      n_workers=n_workers)
             fmt = rst.format_report(report=report, author='vf', version='0')
             if sequence and not unusable and not too_deep:
                 ocnt = Counter()
                 ocnt.num = 5000
                 other = gen_tree(rng, ocnt, 0, 2, None)
                 fix_titles(other)
-                rst.format_report(report=build_report(other), author='vf',
+                rst.format_report(report=build_report(other, how), author='vf',
                                   version='0')
                 rec.count('reports_formatted_in_between')
             fmt.write(target)
@@ -336,11 +357,21 @@ def run_case(seed, idx, tier, rec):
         if raised is not None:
             if isinstance(raised, ValueError) and after == before:
                 # a refusal before anything is written is always acceptable
-                rec.count('refused_cleanly')
                 msg = str(raised)
-                rec.count('refused.' + ('same-page' if 'same page' in msg
-                                        else 'page-is-directory'
-                                        if 'directory' in msg else 'other'))
+                why = ('same-page' if 'same page' in msg
+                       else 'page-is-directory' if 'directory' in msg
+                       else 'other')
+                if why == 'other':
+                    # the only legitimate refusals of a tree with usable
+                    # titles and <= 5 levels are page collisions
+                    rec.violation('valid-tree-refused', f'{raised!r} for a '
+                                  f'tree of depth {depth_of(tree)} built by '
+                                  f'{how}; titles '
+                                  f'{[n["title"] for _, n in walk(tree)][:8]}',
+                                  case)
+                    return
+                rec.count('refused_cleanly')
+                rec.count('refused.' + why)
                 return
             rec.violation(f'write-raised-{type(raised).__name__}',
                           f'{raised!r}; titles '
